@@ -3,6 +3,7 @@ import Orca.Lemmas.Locals
 import Orca.Lemmas.Lower
 import Orca.Lemmas.Types
 import Orca.Lemmas.Ops
+import Orca.Lemmas.Redirect
 /-!
 # C12 — built functions appear exactly as built
 
@@ -71,6 +72,34 @@ theorem c12_returned_id (s : Orca.Edit.St) (uid : Nat) (sites : List Orca.Edit.R
   constructor
   · exact (Orca.Edit.addLocalFunc_spec s uid sites).1
   · simp [Orca.Edit.addLocalFunc, Orca.Edit.Space.push]
+
+open Orca.Edit in
+/-- **the returned id refers to the built function — in the encoded module, after any later history** that neither deletes nor
+    converts it (and does not encode): every emitted function reference whose stored id is the id `finish_module` returned
+    designates the built function `uid`, or the encoder fails loudly on some dangling reference. -/
+theorem c12_returned_id_refers_to_it (s0 : St) (h0 : StInv s0) (uid : Nat) (sites : List Ref) (ops : List Op)
+    (hs : ∀ o ∈ ops, o ≠ .encode ∧ o ≠ .deleteFunc s0.f.items.length ∧ ∀ u, o ≠ .localToImport s0.f.items.length u) :
+    let n := (s0.space .F).items.length
+    let s := (run (step s0 (.addLocalFunc uid sites)).1 ops).1
+    reportedId (step s0 (.addLocalFunc uid sites)).2 = some n
+    ∧ ((∃ s' F G M res st, encode s = (s', Ret.encoded F G M res st)
+        ∧ (∀ r' ∈ res ++ st.toList, ∃ r ∈ allRefs s, r'.site = r.site ∧ r'.sp = r.sp
+            ∧ (∃ u, PointsTo s r u ∧ designated F G M r' = some u)
+            ∧ (r.sp = .F → r.idx = n → designated F G M r' = some uid)))
+      ∨ (∃ s' why, encode s = (s', Ret.panic why) ∧ ∃ r ∈ allRefs s, Dangling s r)) := by
+  refine added_id_designates s0 h0 (.addLocalFunc uid sites) .F uid rfl ops ?_
+  intro x hx o ho
+  obtain ⟨a, b, c⟩ := hs o ho
+  have hxi : x.imp = false := by
+    simp [step, addLocalFunc, St.space, Space.push, mkItem] at hx
+    rw [← hx]
+  show SparesF _ x o
+  cases o with
+  | deleteFunc i => exact fun h => b (by simp only [St.space] at h ⊢; rw [h])
+  | localToImport i u => exact .inl (fun h => c u (by simp only [St.space] at h ⊢; rw [h]))
+  | replaceImport k u c' => exact .inl hxi
+  | encode => exact absurd rfl a
+  | _ => exact True.intro
 
 /-- **name.** The name set on the builder is the name handed to the module (and C29 places it at the function's index) -/
 theorem c12_name (params results : List Nat) (n : String) (ts : List Lower.Tok) :
